@@ -57,6 +57,7 @@ func checkC03(c *Ctx) {
 		c18Reader(c, rf, "C03")
 	}
 	e7Loops(c, "C03-K2", funcs)
+	fmtSelfRecursion(c, "C03-K2")
 	// sizes, indices and shifts computed in int must not depend on int being 64 bits wide (negative sizes on GOARCH=386/arm)
 	platformWidthRule(c, "C03-K3", []string{"dhcpv4", "dhcpv6", "iana", "rfc1035label", "dhcpv4/nclient4", "dhcpv6/nclient6", "dhcpv4/server4", "dhcpv6/server6", "dhcpv4/ztpv4", "dhcpv6/ztpv6", "netboot", "interfaces"})
 	// "re-encoding returns normally": an encoder that serialises a sub-value twice per nesting level does not
